@@ -253,3 +253,42 @@ func vTO2UntilProveDevice(kind int, nopanic bool) {
 		verif.Assert(vwSpecSigned(kind, lastPub, sigAlgs[kind], vwMust(cbor.Marshal(to1d.Payload.Val)), to1d.Signature), "accepted => the rendezvous blob's signature is that same key's signature over its protected header and payload (reference predicate)")
 	}
 }
+
+// the device's HMAC engine may fault while the voucher header is checked: the owner
+// is still accepted only if the header MAC is the device's
+func VerifC01_FallibleHmac() {
+	verif.NoPanic()
+	verif.SetGhost("clock-concrete", 1)
+	verif.Expect("accepted")
+	verif.Expect("not accepted")
+	verif.Bound("C01 hmac fault", "P-256; honest owner service and voucher except for the header MAC (arbitrary 0 or 32 bytes); the device's HMAC-SHA256 engine faults at its 1st or 2nd Sum or never, a faulting Sum returning 0 or 32 arbitrary bytes; transport stops at ProveDevice")
+	t := vMkTO2World(vcP256, false)
+	t.loop.cutAt, t.loop.cutKind = 2, 0
+	ov := t.c.w.store.vouchers[t.c.guid]
+	claimed := verif.Bytes("claimedmac", 32*verif.Choose("mac32", 2))
+	ov.Hmac.Value = claimed
+	// the first entry commits to header||MAC: rebuild the extension over the claimed MAC
+	base := *ov
+	base.Entries = nil
+	mfg := &verif.ModelSigner{Pub: vwMust2(ov.Header.Val.ManufacturerKey.Public())}
+	x, err := vwExtend(&base, mfg, t.c.owner.Public())
+	verif.Assert(err == nil, "harness: extend")
+	t.c.w.store.vouchers[t.c.guid] = x
+	eng := &vFallibleHmac{Hash: hmac.New(sha256.New, t.secret), failAt: verif.Choose("failat", 3), garbageLen: 32 * verif.Choose("garbage32", 2)}
+	t.cfg.HmacSha256 = eng
+	cred, terr := TO2(context.Background(), t.loop, nil, t.cfg)
+	verif.Assert(cred == nil && terr != nil, "the run is cut at ProveDevice")
+	sent64 := false
+	for _, m := range t.loop.sent {
+		if m == protocol.TO2ProveDeviceMsgType {
+			sent64 = true
+		}
+	}
+	if !sent64 {
+		verif.Reached("not accepted")
+		return
+	}
+	verif.Reached("accepted")
+	hdrEnc := vwMust(cbor.Marshal(&ov.Header.Val))
+	verif.Assert(verif.BytesEq(claimed, verif.HmacOf(crypto.SHA256, t.secret, hdrEnc)), "the device goes on to ProveDevice => the voucher header MAC verifies under the device's secret, also with an HMAC engine that can fault")
+}
